@@ -55,6 +55,11 @@ CLAIMED = {
     text='readonly_unchanged, readonly_serves_and_compiles, store_outcome_irrelevant, get_keeps_files and reopen_keeps_files_partial are proved; a pre-populated real cache served under READ_ONLY is listed with content digests before and after mixed request histories (also with SCCACHE_RECACHE and preprocessor cache mode off) and every result is compared with a direct compile. Partial: a directory larger than its size limit is evicted at first use (F-C15-a, kernel-checked witness, open).',
     note='Trusted: Lean kernel, models tied by h_l1 / h_lru; mtime touches are outside the statement.',
     ref='DESIGN.md section 4 C15, Appendix B.19'),
+
+ 'C14': dict(technique='Lean 4 proof (conservation laws by induction over any request list, interleaving invariance by commutation of increments) over an increment table regenerated from server.rs by the translator + real-server histories (sequential, concurrent, zeroed) diffed against the fold',
+    text='law_requests, law_writes, law_compilations, ledger_hits, zero_quiescent (any history) and stats_interleaving_invariant (any two schedules of the same increments) are proved against the per-outcome increment table extracted from check_compiler/start_compile_task on every run; the 15 counters of a real server after real client histories must equal the fold, and the laws and a compiler-run ledger are evaluated on the real counters.',
+    note='Trusted: Lean kernel, translator (regex extraction of stats increments), quiescence assumption. Per-language breakdown law is monitored on the real JSON, not modelled.',
+    ref='DESIGN.md section 4 C14, Appendix B.6'),
 }
 NA_REASON = 'not yet wired into ./check in this round (model and theorems exist under lean/; see DESIGN.md section 0.1)'
 def hooks():
